@@ -66,7 +66,8 @@ def cfg_text(inst, props, depth=None, extra=None):
     lines = ["SPECIFICATION Spec", "CONSTANTS"]
     for k, v in c.items():
         lines.append("  %s %s" % (k, v) if v.startswith("<-") else "  %s = %s" % (k, v))
-    lines += ["CONSTRAINT Constr", "VIEW View", "CHECK_DEADLOCK FALSE", "INVARIANT GhostAgrees"]
+    lines += ["CONSTRAINT Constr", "VIEW View", "CHECK_DEADLOCK FALSE", "INVARIANT GhostAgrees",
+              "INVARIANT StoreInv", "INVARIANT StoreInvCrash", "INVARIANT ConnInv"]
     for p in props:
         lines.append("PROPERTY %s" % p)
     return "\n".join(lines) + "\n", c
@@ -100,7 +101,7 @@ PROFILES = {
     "usage": dict(apps=["a1", "a2"], sides=["s1", "s2", "s3"], names=["1", "x"], client_mbox=["m1"],
                   steps=50, w_advance=5, usage=True),
     "proto": dict(apps=["a1"], sides=["s1", "s2"], names=["1", "x"], client_mbox=["m1"], steps=50,
-                  w_malformed=6.0, extra_keys=True, nonstring=0.08),
+                  w_malformed=6.0, extra_keys=True, nonstring=0.08, badcv=0.05),
     "alloc": dict(apps=["a1", "a2"], sides=["s1", "s2"], names=["1", "2", "3", "10", "x", "007", "0"], client_mbox=["m1"],
                   steps=40, type_weights=dict(allocate=6, release=2, close=1, add=1),
                   prefill_spec=dict(class1=[0, 5, 8, 9, 9], class2=[0, 0, 3], odd=["007", "0", "x", "1.0"])),
@@ -110,6 +111,12 @@ PROFILES = {
                    steps=70, conns=("c1", "c2", "c3", "c4", "c5"), w_stop=0.5, w_fault=0, nonstring=0.05, badmood=0.12),
     "script2": dict(scripted=True, apps=["a1", "a2"], sides=["s1", "s2", "s3"], names=["1", "x"], client_mbox=["m1"],
                     steps=70, conns=("c1", "c2", "c3", "c4", "c5"), w_stop=1.0, w_fault=1.0, usage=True),
+    # generations of clients re-using one nameplate / one client-chosen mailbox id while connections of
+    # earlier generations linger (gen.run_reuse)
+    "reuse": dict(scripted="reuse", apps=["a1"], sides=["s1", "s2", "s3"], names=["1", "x"], client_mbox=["m1"],
+                  conns=("c1", "c2", "c3", "c4", "c5")),
+    "reuseu": dict(scripted="reuse", apps=["a1"], sides=["s1", "s2", "s3"], names=["1", "x"], client_mbox=["m1"],
+                   conns=("c1", "c2", "c3", "c4", "c5"), usage=True),
     "allocfull": dict(apps=["a1"], sides=["s1", "s2"], names=["1", "10", "100"], client_mbox=["m1"],
                       steps=25, type_weights=dict(allocate=8, release=2, close=1, add=1), final_quiesce=False,
                       only_props=["C04.a", "C04.b", "C04.c"], skip_prefill_lines=True,
@@ -133,30 +140,30 @@ def _p(clauses, mc, sim, profiles, pprops, pairs=(), pairclause=None):
 
 PLAN = {
     "C01": _p(["C01.a", "C01.b"], [("core", 9, 12), ("apps", 8, 11)], ["core", "time"],
-              ["mailbox", "apps", "time", "script", "script2"], ["P01"]),
+              ["mailbox", "apps", "time", "script", "script2", "reuse"], ["P01"]),
     "C02": _p(["C02.a", "C02.b"], [("core", 9, 12), ("time", 8, 11)], ["core", "time"],
-              ["fanout", "mailbox", "time", "script", "script2"], ["P02"]),
+              ["fanout", "mailbox", "time", "script", "script2", "reuse"], ["P02"]),
     # C07.a is C03's premise "for as long as the nameplate lives": an incarnation ends only by the
     # causes C07 lists, so a repeated claim must be told the same id until then
     "C03": _p(["C03.a", "C03.b", "C03.c", "C03.d", "C07.a"], [("core", 9, 12), ("apps", 8, 11)], ["core", "apps"],
-              ["nameplate", "apps", "crowd", "script", "script2"], ["P03"]),
+              ["nameplate", "apps", "crowd", "script", "script2", "reuse"], ["P03"]),
     "C05": dict(_p(["C05.a", "C05.b", "C05.c", "C05.keep"], [("core", 9, 12)], ["core"],
-                   ["crowd", "crowdrestart", "mailbox", "script", "script2"], ["P05"]),
+                   ["crowd", "crowdrestart", "mailbox", "script", "script2", "reuse"], ["P05"]),
                 # (the F6 witness needs 14 steps: it is replayed on the code and must conform to the
                 #  specification, witnesses/F6.json, instead of being searched for by TLC)
                 witness_mc=[]),
     "C06": _p(["C06.frame"], [("apps", 8, 11)], ["apps"], ["apps"], ["P06"],
               pairs=[("iso", 144, 4000)], pairclause="C06.pair"),
     "C07": _p(["C07.a", "C07.b", "C07.c", "C07.d", "C07.e"], [("core", 9, 12), ("apps", 8, 11)],
-              ["core", "apps"], ["nameplate", "apps", "crowd", "script", "script2"], ["P07"]),
+              ["core", "apps"], ["nameplate", "apps", "crowd", "script", "script2", "reuse"], ["P07"]),
     "C08": _p(["C08.a", "C08.b", "C08.c", "C08.d"], [("core", 9, 12)], ["core"],
-              ["mailbox", "nameplate", "script", "script2"], ["P08"]),
+              ["mailbox", "nameplate", "script", "script2", "reuse"], ["P08"]),
     "C04": dict(_p(["C04.a", "C04.b", "C04.c"], [("alloc", 8, 11), ("allocnl", 8, 11)], ["core"],
                    ["alloc", "nameplate"], ["P04"]),
                 variants={"alloc": [dict(allow=True), dict(allow=False)]},
                 thorough_profiles=["allocfull", "allocmax"], quick_extra=[("allocmax", 1)]),
     "C09": dict(_p(["C09.a", "C09.b"], [("crash", 8, 11), ("crashu", 7, 10)], ["crash", "crashu"],
-                   ["crash", "usage", "mailbox", "script2", "crowd"], ["P09"]),
+                   ["crash", "usage", "mailbox", "script2", "crowd", "reuseu"], ["P09"]),
                 variants={"crash": [dict(), dict(usage=True)]}),
     "C10": dict(_p(["C10.a", "C10.b", "C10.c", "C13.c"], [("crash", 8, 11), ("crashu", 7, 10)], ["crash", "crashu"],
                    ["crash", "boundaries"], ["P10", "P13"], pairs=[("resume", 144, 4000)], pairclause="C10.resume"),
@@ -164,20 +171,24 @@ PLAN = {
     "C11": _p([], [("time", 8, 11)], ["time"], [], ["P01", "P02"],
               pairs=[("restart", 144, 4000)], pairclause="C11.pair"),
     "C12": _p(["C12.a", "C12.b", "C12.c"], [("time", 8, 11), ("time2", 7, 10)], ["time", "time2"],
-              ["time", "fanout", "script", "script2"], ["P12"]),
+              ["time", "fanout", "script", "script2", "reuse"], ["P12"]),
     "C13": _p(["C13.a", "C13.b", "C13.c"], [("time", 8, 11), ("time2", 7, 10)], ["time", "time2"],
-              ["time", "crowd", "mailbox", "script", "script2"], ["P13"]),
+              ["time", "crowd", "mailbox", "script", "script2", "reuse"], ["P13"]),
     "C14": _p([], [("core", 9, 12)], ["core"], [], ["P03", "P07", "P08"],
               pairs=[("resend", 120, 4000)], pairclause="C14.pair"),
     "C15": dict(_p(["C15.a", "C15.b", "C15.c"], [("usage", 7, 10), ("usage7", 7, 10)], ["usage", "usage7"],
-                   ["usage", "crowd", "script2"], ["P15"]),
+                   ["usage", "crowd", "script2", "reuseu"], ["P15"]),
                 variants={"usage": [dict(usage=True, blur=0), dict(usage=True, blur=3)],
                           "crowd": [dict(usage=True, blur=0)]}, classify=True),
     # blur intervals: minutes (tick = 60 s), seconds that do not divide a minute
     # (tick = 1 s), and real-valued arrival times (tick = 1/100 s)
     "C16": dict(_p(["C16.a", "C16.b", "C16.c"], [("usage", 7, 10), ("usage7", 7, 10)], ["usage", "usage7"],
-                   ["usage"], ["P16"]),
-                variants={"usage": [dict(usage=True, blur=3), dict(usage=True, blur=60 * 24), dict(usage=True, blur=7, unit=1),
+                   ["usage", "boundaries", "crash"], ["P16"]),
+                # (boundaries / crash: records written for what a killed process left behind, e.g. the
+                #  side-less mailbox of a claim that died between its two commits)
+                variants={"boundaries": [dict(usage=True, blur=3), dict(usage=True, blur=7, unit=1)],
+                          "crash": [dict(usage=True, blur=3)],
+                          "usage": [dict(usage=True, blur=3), dict(usage=True, blur=60 * 24), dict(usage=True, blur=7, unit=1),
                                     dict(usage=True, blur=45, unit=1), dict(usage=True, blur=61, unit=1),
                                     dict(usage=True, blur=3600, unit=1), dict(usage=True, blur=100, unit="1/100"),
                                     dict(usage=True, blur=700, unit="1/100")]}, classify=True),
@@ -185,7 +196,7 @@ PLAN = {
                    ["nameplate"], ["P18"], pairs=[("config", 120, 4000)], pairclause="C18.pair"),
                 variants={"nameplate": [dict(allow=True), dict(allow=False), dict(allow=False, usage=True, blur=3)]}),
     "C17": dict(_p(["C17.a", "C17.b", "C17.c", "C17.d", "C17.e", "C17.f", "C17.g"], [("proto", 7, 10), ("apps", 8, 11)],
-                   ["proto"], ["proto", "apps", "script", "script2"], ["P17"]),
+                   ["proto"], ["proto", "apps", "script", "script2", "reuse"], ["P17"]),
                 # the configured welcome notices: none, a message of the day, an error, a version, all three
                 witness_mc=[("apps", 8, "W_F2")],
                 variants={"proto": [dict(), dict(welcome={"motd": "hello \u2603"}),
